@@ -60,6 +60,13 @@ class FactoryRun:
                     await anyio.sleep_forever()
             except cancelled:
                 run.log("cancelSeen", h)
+                eoc = spec["beh"].get("excOnCancel")
+                if eoc is not None:
+                    # the task's clean-up fails: an Exception escapes a task that was cancelled through its handle
+                    run.log("taskEnded", h, eoc)
+                    e = EXN[eoc]()
+                    e.h = h
+                    raise e from None
                 run.log("taskEnded", h, None)
                 raise
             exc = spec["beh"].get("exc")
@@ -118,6 +125,10 @@ class FactoryRun:
         tx, rx = anyio.create_memory_object_stream[tuple](100)
         await owner.start_service_task(lambda: self.service(rx), "spawner", teardown_action=tx.close)
         kw = {} if case["handler"] is None else {"exception_handler": self.handler}
+        if case["handler"] is not None and case.get("handler_obj"):
+            from .kernel import CallableObject
+
+            kw = {"exception_handler": CallableObject(self.handler, falsy=case["handler_obj"] == "falsy")}
         self.factory = await owner.start_background_task_factory(**kw)
         t0 = anyio.current_time()
         for step in case["script"]:
